@@ -143,10 +143,50 @@ struct Opts {
     max_fs: Option<u64>,
     wt: bool,
     body: bool,
+    /// default write budget of every stream (None = unlimited): back-pressure
+    budget: Option<u64>,
+    uni_credit: u64,
+    bidi_credit: u64,
+    trailers: bool,
+    /// stop_sending after the first recv_data result instead of draining the body
+    stop_recv: bool,
+    /// stop_stream instead of finish
+    stop_send: bool,
+    /// server: shutdown(n) after the first accepted request, then keep accepting
+    shutdown: Option<usize>,
+    split: bool,
+    /// client: the SendRequest handle is dropped after the last request was sent
+    drop_sr: bool,
+    /// NOT the documented pattern (exploration only): recv_data once, then recv_trailers
+    early_trailers: bool,
+    /// WebTransport server role: read mode r<k> futures AsyncRead / o<k> tokio AsyncRead, on accept_uni (default) or accept_bi
+    read_futures: Option<usize>,
+    read_tokio: Option<usize>,
+    wt_bidi: bool,
 }
 
 fn parse_opts(s: &str) -> Option<Opts> {
-    let mut o = Opts { pattern_b: false, nreq: 1, grease: false, max_fs: None, wt: false, body: false };
+    let mut o = Opts {
+        pattern_b: false,
+        nreq: 1,
+        grease: false,
+        max_fs: None,
+        wt: false,
+        body: false,
+        budget: None,
+        uni_credit: 100,
+        bidi_credit: 100,
+        trailers: false,
+        stop_recv: false,
+        stop_send: false,
+        shutdown: None,
+        split: false,
+        drop_sr: false,
+        early_trailers: false,
+        read_futures: None,
+        read_tokio: None,
+        wt_bidi: false,
+    };
     for w in s.split('+') {
         match w {
             "pa" | "-" => {}
@@ -154,11 +194,31 @@ fn parse_opts(s: &str) -> Option<Opts> {
             "g" => o.grease = true,
             "w" => o.wt = true,
             "b" => o.body = true,
+            "t" => o.trailers = true,
+            "x" => o.stop_recv = true,
+            "y" => o.stop_send = true,
+            "s" => o.split = true,
+            "d" => o.drop_sr = true,
+            "e" => o.early_trailers = true,
+            "ab" => o.wt_bidi = true,
             _ => {
+                let num = |r: &str| r.parse::<u64>().ok();
                 if let Some(r) = w.strip_prefix('n') {
                     o.nreq = r.parse().ok()?;
                 } else if let Some(r) = w.strip_prefix('m') {
-                    o.max_fs = Some(r.parse().ok()?);
+                    o.max_fs = Some(num(r)?);
+                } else if let Some(r) = w.strip_prefix('q') {
+                    o.budget = Some(num(r)?);
+                } else if let Some(r) = w.strip_prefix('u') {
+                    o.uni_credit = num(r)?;
+                } else if let Some(r) = w.strip_prefix('h') {
+                    o.bidi_credit = num(r)?;
+                } else if let Some(r) = w.strip_prefix('k') {
+                    o.shutdown = Some(r.parse().ok()?);
+                } else if let Some(r) = w.strip_prefix('r') {
+                    o.read_futures = Some(r.parse().ok()?);
+                } else if let Some(r) = w.strip_prefix('o') {
+                    o.read_tokio = Some(r.parse().ok()?);
                 } else {
                     return None;
                 }
@@ -168,8 +228,22 @@ fn parse_opts(s: &str) -> Option<Opts> {
     Some(o)
 }
 
-type SrvStream = h3::server::RequestStream<SimBidi<Bytes>, Bytes>;
 type CliStream = h3::client::RequestStream<SimBidi<Bytes>, Bytes>;
+
+/// Everything an application can do with an error without touching the transport is evaluated here, inside the
+/// catch_unwind of the case: Debug (in stream_err / conn_err), Display, is_h3_no_error, source().
+fn serr(e: &h3::error::StreamError) -> String {
+    let _ = e.to_string();
+    let _ = e.is_h3_no_error();
+    let _ = std::error::Error::source(e).map(|x| x.to_string());
+    stream_err(e)
+}
+fn cerr(e: &h3::error::ConnectionError) -> String {
+    let _ = e.to_string();
+    let _ = e.is_h3_no_error();
+    let _ = std::error::Error::source(e).map(|x| x.to_string());
+    conn_err(e)
+}
 
 fn res_unit<E>(r: &Result<(), E>, f: impl Fn(&E) -> String) -> String {
     match r {
@@ -178,10 +252,17 @@ fn res_unit<E>(r: &Result<(), E>, f: impl Fn(&E) -> String) -> String {
     }
 }
 
+fn trailer_map() -> http::HeaderMap {
+    let mut m = http::HeaderMap::new();
+    m.insert("x-t", http::HeaderValue::from_static("1"));
+    m
+}
+
 /// recv_data until None / error, then recv_trailers; false = the application gives up on the stream
 macro_rules! recv_part {
-    ($log:expr, $task:expr, $st:expr, $id:expr) => {{
+    ($log:expr, $task:expr, $st:expr, $id:expr, $o:expr) => {{
         let mut good = true;
+        let mut stopped = false;
         loop {
             let r = call!($log, $task, "recv_data", $id, $st.recv_data());
             match r {
@@ -196,19 +277,28 @@ macro_rules! recv_part {
                     break;
                 }
                 Err(e) => {
-                    $log.end($task, &format!("err:{}", stream_err(&e)));
+                    $log.end($task, &format!("err:{}", serr(&e)));
                     good = false;
                     break;
                 }
             }
+            if $o.stop_recv {
+                // the application is not interested in the rest of the body
+                $st.stop_sending(h3::error::Code::H3_NO_ERROR);
+                stopped = true;
+                break;
+            }
+            if $o.early_trailers {
+                break;
+            }
         }
-        if good {
+        if good && !stopped {
             let r = call!($log, $task, "recv_trailers", $id, $st.recv_trailers());
             match r {
                 Ok(Some(_)) => $log.end($task, "some"),
                 Ok(None) => $log.end($task, "none"),
                 Err(e) => {
-                    $log.end($task, &format!("err:{}", stream_err(&e)));
+                    $log.end($task, &format!("err:{}", serr(&e)));
                     good = false;
                 }
             }
@@ -217,21 +307,48 @@ macro_rules! recv_part {
     }};
 }
 
-async fn srv_send_part(log: &Log, task: &str, st: &mut SrvStream) -> bool {
-    let resp = http::Response::builder().status(200).header("x-a", "b").body(()).unwrap();
-    let r = call!(log, task, "send_response", "n", st.send_response(resp));
-    log.end(task, &res_unit(&r, stream_err));
-    if r.is_err() {
-        return false;
+/// send_response -> send_data -> [send_trailers] -> finish | stop_stream; false = gave up at the first error.
+/// Send calls wait on the peer's flow-control credit for stream `id` (target `w<id>`).
+macro_rules! srv_send_part {
+    ($log:expr, $task:expr, $st:expr, $id:expr, $o:expr) => {{
+        let tgt = format!("w{}", $id);
+        let resp = http::Response::builder().status(200).header("x-a", "b").body(()).unwrap();
+        let r = call!($log, $task, "send_response", tgt, $st.send_response(resp));
+        $log.end($task, &res_unit(&r, serr));
+        let mut good = r.is_ok();
+        if good {
+            let r = call!($log, $task, "send_data", tgt, $st.send_data(Bytes::from_static(b"hello, this is the body")));
+            $log.end($task, &res_unit(&r, serr));
+            good = r.is_ok();
+        }
+        if good && $o.trailers {
+            let r = call!($log, $task, "send_trailers", tgt, $st.send_trailers(trailer_map()));
+            $log.end($task, &res_unit(&r, serr));
+            good = r.is_ok();
+        }
+        if good {
+            if $o.stop_send {
+                $st.stop_stream(h3::error::Code::H3_REQUEST_CANCELLED);
+            } else {
+                let r = call!($log, $task, "finish", tgt, $st.finish());
+                $log.end($task, &res_unit(&r, serr));
+                good = r.is_ok();
+            }
+        }
+        good
+    }};
+}
+
+fn srv_builder(o: Opts) -> h3::server::Builder {
+    let mut b = h3::server::builder();
+    b.send_grease(o.grease);
+    if let Some(m) = o.max_fs {
+        b.max_field_section_size(m);
     }
-    let r = call!(log, task, "send_data", "n", st.send_data(Bytes::from_static(b"hello")));
-    log.end(task, &res_unit(&r, stream_err));
-    if r.is_err() {
-        return false;
+    if o.wt {
+        b.enable_webtransport(true).enable_extended_connect(true).enable_datagram(true).max_webtransport_sessions(1);
     }
-    let r = call!(log, task, "finish", "n", st.finish());
-    log.end(task, &res_unit(&r, stream_err));
-    r.is_ok()
+    b
 }
 
 fn spawn_server(ex: &mut Exec, w: &Shared, o: Opts, log: &Log) {
@@ -241,39 +358,44 @@ fn spawn_server(ex: &mut Exec, w: &Shared, o: Opts, log: &Log) {
         let log = log.clone();
         let q = queue.clone();
         ex.spawn(async move {
-            let mut b = h3::server::builder();
-            b.send_grease(o.grease);
-            if let Some(m) = o.max_fs {
-                b.max_field_section_size(m);
-            }
-            if o.wt {
-                b.enable_webtransport(true).enable_extended_connect(true).enable_datagram(true).max_webtransport_sessions(1);
-            }
-            let r = call!(log, "a", "build", "n", b.build::<SimConn, Bytes>(SimConn { world: w2 }));
+            let b = srv_builder(o);
+            let r = call!(log, "a", "build", "wc", b.build::<SimConn, Bytes>(SimConn { world: w2 }));
             let mut conn = match r {
                 Ok(c) => {
                     log.end("a", "ok");
                     c
                 }
                 Err(e) => {
-                    log.end("a", &format!("err:{}", conn_err(&e)));
+                    log.end("a", &format!("err:{}", cerr(&e)));
                     return String::new();
                 }
             };
+            let mut accepted = 0usize;
             loop {
                 let r = call!(log, "a", "accept", "c", conn.accept());
                 match r {
                     Ok(Some(res)) => {
                         log.end("a", "some");
                         q.put(res);
+                        accepted += 1;
                     }
                     Ok(None) => {
                         log.end("a", "none");
                         break;
                     }
                     Err(e) => {
-                        log.end("a", &format!("err:{}", conn_err(&e)));
+                        log.end("a", &format!("err:{}", cerr(&e)));
                         break;
+                    }
+                }
+                if accepted == 1 {
+                    if let Some(n) = o.shutdown {
+                        // graceful shutdown, then keep serving what is still allowed
+                        let r = call!(log, "a", "shutdown", "wc", conn.shutdown(n));
+                        log.end("a", &res_unit(&r, cerr));
+                        if r.is_err() {
+                            break;
+                        }
                     }
                 }
             }
@@ -299,21 +421,173 @@ fn spawn_server(ex: &mut Exec, w: &Shared, o: Opts, log: &Log) {
                         x
                     }
                     Err(e) => {
-                        log.end(task, &format!("err:{}", stream_err(&e)));
+                        log.end(task, &format!("err:{}", serr(&e)));
                         continue;
                     }
                 };
-                if o.pattern_b {
-                    if srv_send_part(&log, task, &mut st).await {
-                        let _ = recv_part!(log, task, st, id);
+                if o.split {
+                    let (mut tx, mut rx) = st.split();
+                    if o.pattern_b {
+                        if srv_send_part!(log, task, tx, id, o) {
+                            let _ = recv_part!(log, task, rx, id, o);
+                        }
+                    } else if recv_part!(log, task, rx, id, o) {
+                        let _ = srv_send_part!(log, task, tx, id, o);
                     }
-                } else if recv_part!(log, task, st, id) {
-                    let _ = srv_send_part(&log, task, &mut st).await;
+                    drop(rx);
+                    drop(tx);
+                } else {
+                    if o.pattern_b {
+                        if srv_send_part!(log, task, st, id, o) {
+                            let _ = recv_part!(log, task, st, id, o);
+                        }
+                    } else if recv_part!(log, task, st, id, o) {
+                        let _ = srv_send_part!(log, task, st, id, o);
+                    }
+                    drop(st);
                 }
-                drop(st);
             }
         });
     }
+}
+
+/// WebTransport server: build -> accept -> resolve_request (extended CONNECT) -> WebTransportSession::accept ->
+/// accept_uni | accept_bi -> read the stream through futures / tokio AsyncRead with a k-byte buffer
+fn spawn_wt_server(ex: &mut Exec, w: &Shared, mut o: Opts, log: &Log) {
+    use h3_webtransport::server::{AcceptedBi, WebTransportSession};
+    use std::pin::Pin;
+    o.wt = true;
+    let w2 = w.clone();
+    let log = log.clone();
+    ex.spawn(async move {
+        let b = srv_builder(o);
+        let r = call!(log, "a", "build", "wc", b.build::<SimConn, Bytes>(SimConn { world: w2 }));
+        let mut conn = match r {
+            Ok(c) => {
+                log.end("a", "ok");
+                c
+            }
+            Err(e) => {
+                log.end("a", &format!("err:{}", cerr(&e)));
+                return String::new();
+            }
+        };
+        let r = call!(log, "a", "accept", "c", conn.accept());
+        let res = match r {
+            Ok(Some(res)) => {
+                log.end("a", "some");
+                res
+            }
+            Ok(None) => {
+                log.end("a", "none");
+                std::future::pending::<()>().await;
+                drop(conn);
+                return String::new();
+            }
+            Err(e) => {
+                log.end("a", &format!("err:{}", cerr(&e)));
+                std::future::pending::<()>().await;
+                drop(conn);
+                return String::new();
+            }
+        };
+        let id = res.frame_stream.id().into_inner();
+        let r = call!(log, "a", "resolve_request", id, res.resolve_request());
+        let (req, st) = match r {
+            Ok(x) => {
+                log.end("a", "ok");
+                x
+            }
+            Err(e) => {
+                log.end("a", &format!("err:{}", serr(&e)));
+                std::future::pending::<()>().await;
+                drop(conn);
+                return String::new();
+            }
+        };
+        let r = call!(log, "a", "wt_accept", format!("w{}", id), WebTransportSession::accept(req, st, conn));
+        let session: WebTransportSession<SimConn, Bytes> = match r {
+            Ok(s) => {
+                log.end("a", "ok");
+                s
+            }
+            Err(e) => {
+                log.end("a", &format!("err:{}", serr(&e)));
+                return String::new();
+            }
+        };
+        macro_rules! read_all {
+            ($s:expr, $sid:expr) => {{
+                loop {
+                    if let Some(k) = o.read_tokio {
+                        let mut raw = vec![0u8; k.max(1)];
+                        let mut rb = tokio::io::ReadBuf::new(&mut raw[..]);
+                        let r = call!(log, "a", "read_tokio", $sid, poll_fn(|cx| tokio::io::AsyncRead::poll_read(Pin::new(&mut $s), cx, &mut rb)));
+                        match r {
+                            Ok(()) if rb.filled().is_empty() => {
+                                log.end("a", "none");
+                                break;
+                            }
+                            Ok(()) => log.end("a", "some"),
+                            Err(e) => {
+                                let _ = e.to_string();
+                                log.end("a", "err:s:-:Io");
+                                break;
+                            }
+                        }
+                    } else {
+                        let k = o.read_futures.unwrap_or(16).max(1);
+                        let mut buf = vec![0u8; k];
+                        let r = call!(log, "a", "read", $sid, poll_fn(|cx| futures_util::io::AsyncRead::poll_read(Pin::new(&mut $s), cx, &mut buf[..])));
+                        match r {
+                            Ok(0) => {
+                                log.end("a", "none");
+                                break;
+                            }
+                            Ok(_) => log.end("a", "some"),
+                            Err(e) => {
+                                let _ = e.to_string();
+                                log.end("a", "err:s:-:Io");
+                                break;
+                            }
+                        }
+                    }
+                }
+            }};
+        }
+        if o.wt_bidi {
+            let r = call!(log, "a", "accept_bi", "c", session.accept_bi());
+            match r {
+                Ok(Some(AcceptedBi::BidiStream(_sid, mut s))) => {
+                    log.end("a", "some");
+                    let sid = h3::quic::RecvStream::recv_id(&s).into_inner();
+                    read_all!(s, sid);
+                    std::future::pending::<()>().await;
+                    drop(s);
+                }
+                Ok(Some(AcceptedBi::Request(..))) => log.end("a", "request"),
+                Ok(None) => log.end("a", "none"),
+                Err(e) => log.end("a", &format!("err:{}", serr(&e))),
+            }
+        } else {
+            let r = call!(log, "a", "accept_uni", "c", session.accept_uni());
+            match r {
+                Ok(Some((_sid, mut s))) => {
+                    log.end("a", "some");
+                    let sid = h3::quic::RecvStream::recv_id(&s).into_inner();
+                    read_all!(s, sid);
+                    std::future::pending::<()>().await;
+                    drop(s);
+                }
+                Ok(None) => log.end("a", "none"),
+                Err(e) => log.end("a", &format!("err:{}", cerr(&e))),
+            }
+        }
+        // never drop the session: its Drop closes the connection, which is not part of the scenario
+        std::future::pending::<()>().await;
+        drop(session);
+        String::new()
+    });
 }
 
 fn spawn_client(ex: &mut Exec, w: &Shared, o: Opts, log: &Log) {
@@ -331,14 +605,14 @@ fn spawn_client(ex: &mut Exec, w: &Shared, o: Opts, log: &Log) {
             if o.wt {
                 b.enable_extended_connect(true).enable_datagram(true);
             }
-            let r = call!(log, "d", "build", "n", b.build::<SimConn, SimOpener, Bytes>(SimConn { world: w2 }));
+            let r = call!(log, "d", "build", "wc", b.build::<SimConn, SimOpener, Bytes>(SimConn { world: w2 }));
             let (mut conn, sr) = match r {
                 Ok(x) => {
                     log.end("d", "ok");
                     x
                 }
                 Err(e) => {
-                    log.end("d", &format!("err:{}", conn_err(&e)));
+                    log.end("d", &format!("err:{}", cerr(&e)));
                     return String::new();
                 }
             };
@@ -346,7 +620,7 @@ fn spawn_client(ex: &mut Exec, w: &Shared, o: Opts, log: &Log) {
             // and finally stays in the queue (dropping the last handle would close the connection locally)
             q.put(sr);
             let e = call!(log, "d", "poll_close", "c", poll_fn(|cx| conn.poll_close(cx)));
-            log.end("d", &format!("err:{}", conn_err(&e)));
+            log.end("d", &format!("err:{}", cerr(&e)));
             std::future::pending::<()>().await;
             drop(conn);
             String::new()
@@ -356,65 +630,97 @@ fn spawn_client(ex: &mut Exec, w: &Shared, o: Opts, log: &Log) {
         let log = log.clone();
         let q = queue.clone();
         let task = format!("r{}", i);
-        // the i-th request of the client uses bidirectional stream 4*i (SimQuic hands out ids in opening order)
+        let last = i + 1 == o.nreq;
         ex.spawn(async move {
             let task = task.as_str();
             let mut sr = q.take().await;
             let rq = http::Request::builder().method(if o.body { "POST" } else { "GET" }).uri("https://a/p").body(()).unwrap();
-            let r = call!(log, task, "send_request", "n", sr.send_request(rq));
-            q.put(sr);
-            let mut st: CliStream = match r {
+            let r = call!(log, task, "send_request", "wc", sr.send_request(rq));
+            if last && o.drop_sr {
+                drop(sr);
+            } else {
+                q.put(sr);
+            }
+            let st: CliStream = match r {
                 Ok(s) => {
                     log.end(task, "ok");
                     s
                 }
                 Err(e) => {
-                    log.end(task, &format!("err:{}", stream_err(&e)));
+                    log.end(task, &format!("err:{}", serr(&e)));
                     return String::new();
                 }
             };
             let id = st.id().into_inner();
-            let mut good = true;
-            if !o.pattern_b {
-                if o.body {
-                    let r = call!(log, task, "send_data", "n", st.send_data(Bytes::from_static(b"body")));
-                    log.end(task, &res_unit(&r, stream_err));
-                    good = r.is_ok();
-                }
-                if good {
-                    let r = call!(log, task, "finish", "n", st.finish());
-                    log.end(task, &res_unit(&r, stream_err));
-                    good = r.is_ok();
-                }
-            }
-            // interim (1xx) responses are followed by another response head
-            let mut heads = 0;
-            while good && heads < 4 {
-                heads += 1;
-                let r = call!(log, task, "recv_response", id, st.recv_response());
-                match r {
-                    Ok(resp) => {
-                        if resp.status().is_informational() {
-                            log.end(task, "interim");
-                        } else {
-                            log.end(task, "ok");
-                            break;
+            macro_rules! client_flow {
+                ($tx:expr, $rx:expr) => {{
+                    let tgt = format!("w{}", id);
+                    let mut good = true;
+                    macro_rules! send_side {
+                        () => {{
+                            if o.body {
+                                let r = call!(log, task, "send_data", tgt, $tx.send_data(Bytes::from_static(b"request body bytes")));
+                                log.end(task, &res_unit(&r, serr));
+                                good = r.is_ok();
+                            }
+                            if good && o.trailers {
+                                let r = call!(log, task, "send_trailers", tgt, $tx.send_trailers(trailer_map()));
+                                log.end(task, &res_unit(&r, serr));
+                                good = r.is_ok();
+                            }
+                            if good {
+                                if o.stop_send {
+                                    $tx.stop_stream(h3::error::Code::H3_REQUEST_CANCELLED);
+                                } else {
+                                    let r = call!(log, task, "finish", tgt, $tx.finish());
+                                    log.end(task, &res_unit(&r, serr));
+                                    good = r.is_ok();
+                                }
+                            }
+                        }};
+                    }
+                    if !o.pattern_b {
+                        send_side!();
+                    }
+                    // interim (1xx) responses are followed by another response head
+                    let mut heads = 0;
+                    while good && heads < 4 {
+                        heads += 1;
+                        let r = call!(log, task, "recv_response", id, $rx.recv_response());
+                        match r {
+                            Ok(resp) => {
+                                if resp.status().is_informational() {
+                                    log.end(task, "interim");
+                                } else {
+                                    log.end(task, "ok");
+                                    break;
+                                }
+                            }
+                            Err(e) => {
+                                log.end(task, &format!("err:{}", serr(&e)));
+                                good = false;
+                            }
                         }
                     }
-                    Err(e) => {
-                        log.end(task, &format!("err:{}", stream_err(&e)));
-                        good = false;
+                    if good {
+                        good = recv_part!(log, task, $rx, id, o);
                     }
-                }
+                    if good && o.pattern_b {
+                        send_side!();
+                    }
+                    let _ = good;
+                }};
             }
-            if good {
-                good = recv_part!(log, task, st, id);
+            if o.split {
+                let (mut tx, mut rx) = st.split();
+                client_flow!(tx, rx);
+                drop(tx);
+                drop(rx);
+            } else {
+                let mut st = st;
+                client_flow!(st, st);
+                drop(st);
             }
-            if good && o.pattern_b {
-                let r = call!(log, task, "finish", "n", st.finish());
-                log.end(task, &res_unit(&r, stream_err));
-            }
-            drop(st);
             String::new()
         });
     }
@@ -450,7 +756,9 @@ fn world_summary(w: &Shared, ids: &[u64]) -> String {
             Some(Ev::Reset(_)) => "R",
             _ => "-",
         };
-        v.push(format!("{}:{}", id, t));
+        // `s` = the peer sent STOP_SENDING for our send half of this stream
+        let st = if g.streams.get(id).map(|s| s.peer_stop.is_some()).unwrap_or(false) { "s" } else { "" };
+        v.push(format!("{}:{}{}", id, t, st));
     }
     v.join(",")
 }
@@ -480,16 +788,16 @@ fn apply(w: &Shared, ev: &str) -> bool {
 
 fn run_case(role: &str, o: Opts, evs: &[&str], log: &Log, progress: &RefCell<usize>) -> String {
     let side = match role {
-        "srv" => Side::Server,
+        "srv" | "wts" => Side::Server,
         "cli" => Side::Client,
         _ => return "driver-error bad-role".into(),
     };
-    let w = World::new(side, 100, 100, None);
+    let w = World::new(side, o.uni_credit, o.bidi_credit, o.budget);
     let mut ex = Exec::new();
-    if side == Side::Server {
-        spawn_server(&mut ex, &w, o, log);
-    } else {
-        spawn_client(&mut ex, &w, o, log);
+    match role {
+        "srv" => spawn_server(&mut ex, &w, o, log),
+        "wts" => spawn_wt_server(&mut ex, &w, o, log),
+        _ => spawn_client(&mut ex, &w, o, log),
     }
     let mut live = true;
     for (k, ev) in evs.iter().enumerate() {
